@@ -122,7 +122,7 @@ fn leaf_name(r1: usize, c1: usize, r2: usize, c2: usize) -> String {
 pub fn run(run: &Run) {
     run.rule("every shape pair (r1,c1,r2,c2) × {+,-,*,/} × Matrix∘Matrix / Matrix∘Vector / Vector∘Matrix × 4 ownership forms; left entries distinct primes, right entries distinct other primes + 0.5; oracle = NumPy rule, bitwise; non-trivial = shapes differ (stretch or rejection expected)");
     let d = run.tier.pick(6usize, 10usize);
-    run.bound("shape pairs", format!("(r1,c1,r2,c2) in 1..={}^4{}", d, if run.thorough() { " plus {1,2,7,8,9,15,16,17,31,33,40}^4" } else { " plus {1,2,8,9,16,17,40}^4" }));
+    run.bound("shape pairs", format!("(r1,c1,r2,c2) in 1..={}^4{}", d, if run.thorough() { " plus {1,2,7,8,9,15,16,17,31,33,40}^4" } else { " plus {1,2,8,9,16,17,40}^4" }) + "; 9 shapes with more than 1024 elements (not a multiple of 8) × 6 equal / stretched partners");
     let mut pairs = Vec::new();
     for r1 in 1..=d {
         for c1 in 1..=d {
@@ -144,6 +144,16 @@ pub fn run(run: &Run) {
                 }
             }
         }
+    }
+    // element counts above 1024 that are not a multiple of the unroll width (kernels may switch to a
+    // blocked or parallel path for large operands), equal shapes and stretches
+    for &(r, c) in &[(33usize, 33usize), (35, 30), (37, 39), (39, 39), (41, 25), (1, 1025), (1025, 1), (65, 63), (3, 343)] {
+        pairs.push((r, c, r, c));
+        pairs.push((r, c, 1, c));
+        pairs.push((r, c, r, 1));
+        pairs.push((1, c, r, c));
+        pairs.push((r, 1, r, c));
+        pairs.push((r, c, 1, 1));
     }
     pairs.par_iter().for_each(|&(r1, c1, r2, c2)| {
         let lv = left(r1 * c1);
